@@ -216,11 +216,23 @@ Coerces(at, pt) ==
     \/ (Kind(at) = "arr" /\ pt = Slice(Elem(at)))
     \/ (Kind(at) = "struct" /\ pt = View(at))
     \/ (Kind(at) = "ptr" /\ Kind(Rest(at)) = "arr" /\ pt = SPtr(Elem(Rest(at))))
-ArgFits(at, pt) == at = pt \/ Coerces(at, pt)
+\* features.md "Interoperability with C": in the signature of an `extern` function `[]T` is a view of an
+\* array without length, <<"view", "endless", T>>, and `&[]T` a pointer to one, <<"ptr", "endless", T>>.
+\* What fits `[]T` / `&[]T` of an ordinary function fits these too; the mutable form still needs `&`
+\* (or an existing slice pointer): a VIEW never becomes a pointer.
+EndlessOf(t) == <<"endless">> \o t
+ExternCoerces(at, pt) ==
+    \/ (Kind(at) = "arr" /\ pt = View(EndlessOf(Elem(at))))
+    \/ (Kind(at) = "slice" /\ pt = View(EndlessOf(Rest(at))))
+    \/ (Kind(at) = "sptr" /\ pt = Ptr(EndlessOf(Rest(at))))
+    \/ (Kind(at) = "ptr" /\ Kind(Rest(at)) = "arr" /\ pt = Ptr(EndlessOf(Elem(Rest(at)))))
+ArgFits(at, pt) == at = pt \/ Coerces(at, pt) \/ ExternCoerces(at, pt)
 LooksLikeMissingAddress(at, pt) ==
     \/ pt = Ptr(at)
     \/ (Kind(at) = "slice" /\ pt = SPtr(Rest(at)))
     \/ (Kind(at) = "arr" /\ pt = SPtr(Elem(at)))
+    \/ (Kind(at) = "slice" /\ pt = Ptr(EndlessOf(Rest(at))))
+    \/ (Kind(at) = "arr" /\ pt = Ptr(EndlessOf(Elem(at))))
 ArgOK(DA, ka, sh) ==
     LET at == ExprType(DA, ka)
         pt == ParamType(sh)
@@ -245,6 +257,11 @@ ReturnOK(RT, DA, ka) ==
 (*   un       a,ka operand                                                 *)
 (*   as/cast  a,ka operand, b target type                                  *)
 (*   assign   b,kb assignee, a,ka assigned variable                        *)
+(*   assignp  the same, where the assignee is a PLACE of declared type b   *)
+(*            reached by a path; op names the shape of the path (element,  *)
+(*            member, member of member, member of an element of a member   *)
+(*            array, member through a pointer member, ...).  The shape is  *)
+(*            ignored: only the declared type of the place matters.        *)
 (*   init     b declared type, a,ka initialiser variable                   *)
 (*   member   b declared type of the member, a,ka initialiser variable     *)
 (*   const    b declared type, a type of the literal                       *)
@@ -269,7 +286,7 @@ Verdict(c) ==
       [] c.ctx = "un"     -> IF OperandExcess(c) THEN Rej({538, 550}) ELSE UnResult(c.op, ExprType(c.a, c.ka))
       [] c.ctx = "as"     -> IF OperandExcess(c) THEN Rej({538, 552}) ELSE CastOK(ExprType(c.a, c.ka), c.b)
       [] c.ctx = "cast"   -> IF OperandExcess(c) THEN Rej({538, 553}) ELSE BitCastOK(ExprType(c.a, c.ka), c.b)
-      [] c.ctx = "assign" -> AssignOK(c.b, c.kb, c.a, c.ka)
+      [] c.ctx \in {"assign", "assignp"} -> AssignOK(c.b, c.kb, c.a, c.ka)
       [] c.ctx = "init"   -> InitOK(c.b, c.a, c.ka)
       [] c.ctx = "member" -> MemberOK(c.b, c.a, c.ka)
       [] c.ctx = "const"  -> ConstOK(c.b, c.a)
